@@ -1,17 +1,31 @@
-// T5: the straight-line functions ABOVE the kernels (point formulas, representation changes, the
-// straight-line part of the field's high layer) as pure Lean definitions over `Impl.Fe`, obtained by
-// symbolic execution of their go/ssa form (EdVerif/Gen/Formulas.lean).
+// T5: the functions ABOVE the kernels (point formulas, representation changes, the field's high layer, the scalar layer
+// above the fiat kernels, table construction and selection, digit recoding, the constant-time scalar multiplications) as
+// pure Lean definitions over `Impl.Fe` / `Prims.W4`, obtained by symbolic execution of their go/ssa form
+// (EdVerif/Gen/Formulas.lean).
 //
-// A function qualifies if it is a single basic block whose memory objects are its pointer
-// parameters, its own allocations and package-level constants, and whose calls are to functions of
-// the table below or to other translated functions.  The translator keeps a symbolic store
-// "place -> Lean term" (a place is a root — parameter, local, global — followed by a field path);
-// every call of a field operation becomes a `let`.  Anything else is an error (reported, never
-// skipped silently): the function is then not in the regenerated model and its hand-written
-// counterpart in EdVerif/Impl is tied by the executed correspondence only.
+// A function qualifies if its memory objects are its pointer parameters, its own allocations and package-level constants,
+// and its calls are to functions of the tables below or to other translated functions.  The translator keeps a symbolic
+// store "place -> Lean term" (a place is a root — parameter, local, global — followed by a field path); every call of a
+// primitive becomes a `let`.  Control flow: loops whose conditions are constants on every path unroll; a branch on a
+// symbolic condition forks into `if … then … else` (or a `match` on the outcome of a fallible setter), each branch
+// executed to the function's exits.  Further features:
+//   * byte slices passed by value are Lean `Bytes` terms; `len(x)` tested on the way to a program point is a constant
+//     there (path-sensitive: `lens`), sub-slices with constant bounds within the known length are `Bin.slice`;
+//     `(*[n]byte)(x)` needs `len(x) = n` on the path; `copy(buf[:], x)` into a still-zero local array is
+//     `Scalar.copyInto n x`; byte arrays are single `Bytes` values (`a[i]!`, `a.set! i v`);
+//   * `[4]uint64` (fiat field elements) are `W4` values, a `Scalar` is its only field; pointer conversions between the
+//     fiat types denote the same place;
+//   * `int8` is modelled by `Int` (the integer denoted) with the wrapping operations of `EdVerif.Impl.I8`, every other
+//     integer type by its two's complement representative in `Nat`;
+//   * callees in `formulaInline` are executed in place (their panics must be unreachable, no symbolic branch inside);
+//   * a function with a `panic` statement gets result type `Res T` (`formulaPanics`: message -> class);
+//   * fallible setters yield `(returned value or none, final receiver)`; a fallible setter whose two results are returned
+//     unchanged by its caller (same receiver, no store in between) passes its pair on.
+// Anything else is an error (reported as UNSUPPORTED, never skipped silently): the function is then not in the regenerated
+// model and its hand-written counterpart in EdVerif/Impl is tied by the executed correspondence only.
 //
-// The hand-written model is tied to this file by `rfl` theorems (EdVerif/Proofs/FormulaTies.lean):
-// a change of the Go code that changes the data flow of a formula makes the tie fail to check.
+// The hand-written specification (EdVerif/Proofs/FormulaSpec.lean) is tied to this file by `rfl` theorems
+// (EdVerif/Gen/FormulaTies.lean): a change of the Go code that changes the data flow makes the tie fail to check.
 package main
 
 import (
@@ -19,6 +33,7 @@ import (
 	"go/constant"
 	"go/token"
 	"go/types"
+	"os"
 	"sort"
 	"strings"
 
@@ -39,14 +54,26 @@ var formulaFns = []string{
 	"(*field.Element).Invert", "(*field.Element).Pow22523",
 	"(*Point).bytes", "(*Point).Bytes", "(*Point).BytesMontgomery", "(*Point).Set", "NewIdentityPoint", "NewGeneratorPoint",
 	"(*Point).extendedCoordinates",
+	"(*projLookupTable).SelectInto", "(*affineLookupTable).SelectInto", // int8 arithmetic, 8 unrolled iterations
 	"(*projLookupTable).FromP3", "(*affineLookupTable).FromP3", "(*nafLookupTable5).FromP3",
+	// scalar.go: the layer above the fiat kernels
+	"(*Scalar).Set", "NewScalar", "(*Scalar).MultiplyAdd", "(*Scalar).bytes", "(*Scalar).Bytes",
+	"(*Scalar).setShortBytes", // on its own: result type `Res` (panic on long input); its callers execute it in place (`formulaInline`)
+	"(*Scalar).SetUniformBytes", "isReduced", "(*Scalar).SetCanonicalBytes", "(*Scalar).SetBytesWithClamping",
+	"(*Scalar).Invert", // the `pow2k` loops have constant trip counts at the call sites: executed in place
+	"(*Scalar).signedRadix16", // result type `Res`; the scalar multiplications keep the total primitive `Scalar.radix16Digits`
 	"(*Point).ScalarMult", "(*Point).ScalarBaseMult", // 64 unrolled iterations each; (*nafLookupTable8).FromP3 is left out: 64 unrolled entries, the rfl tie needs minutes
 }
 
 // unexported helpers that fill a caller-provided buffer: parameter positions that may be written besides the receiver
 var formulaOutParams = map[string]map[int]bool{
 	"(*Point).bytes": {1: true}, "(*Point).bytesMontgomery": {1: true}, "(*Point).extendedCoordinates": {1: true},
+	"(*Scalar).bytes": {1: true},
 }
+
+// callees that are executed in place at each call site instead of being translated on their own (their `panic` must be
+// unreachable at every call site and no symbolic branch may occur inside: otherwise the caller is UNSUPPORTED)
+var formulaInline = map[string]bool{"(*Scalar).setShortBytes": true, "(*Scalar).pow2k": true}
 
 // Go struct -> Lean structure of EdVerif.Impl
 var leanStruct = map[string]string{"Point": "P3", "projP1xP1": "P1xP1", "projP2": "P2", "projCached": "Cached", "affineCached": "AffineCached"}
@@ -56,6 +83,7 @@ var formulaGlobals = map[string]string{
 	"field.feOne": "Fe.one", "field.feZero": "Fe.zero", "field.sqrtM1": "Fe.sqrtM1",
 	"feOne": "Point.feOne", "feZero": "Point.feZero", "d": "Point.d", "d2": "Point.d2",
 	"identity": "Point.identity", "generator": "Point.generator",
+	"scalarTwo168": "Fiat.scalarTwo168", "scalarTwo336": "Fiat.scalarTwo336", "scalarMinusOneBytes": "Fiat.scalarMinusOneBytes",
 }
 
 // primitive callees: Lean function, which arguments are read (pointer arguments are dereferenced), what is written
@@ -79,12 +107,33 @@ var formulaPrims = map[string]prim{
 	"(*field.Element).Bytes":    {"Fe.bytes", []int{0}, -1, "val"},
 	"(*field.Element).IsNegative": {"Fe.isNegative", []int{0}, -1, "val"},
 	"crypto/subtle.ConstantTimeCompare": {"Fe.ctCompare", []int{0, 1}, -1, "val"},
+	// the fiat kernels and the scalar operations translated by T1 (EdVerif.Gen.Fiat); the first argument is the prior
+	// value of the location that receives the result
+	"fiatScalarFromBytes":      {"Fiat.fiatScalarFromBytes", []int{0, 1}, 0, "unit"},
+	"fiatScalarToBytes":        {"Fiat.fiatScalarToBytes", []int{0, 1}, 0, "unit"},
+	"fiatScalarToMontgomery":   {"Fiat.fiatScalarToMontgomery", []int{0, 1}, 0, "unit"},
+	"fiatScalarFromMontgomery": {"Fiat.fiatScalarFromMontgomery", []int{0, 1}, 0, "unit"},
+	"(*Scalar).Add":            {"Fiat.Add", []int{0, 1, 2}, 0, "recv"},
+	"(*Scalar).Subtract":       {"Fiat.Subtract", []int{0, 1, 2}, 0, "recv"},
+	"(*Scalar).Multiply":       {"Fiat.Multiply", []int{0, 1, 2}, 0, "recv"},
+	"(*Scalar).Negate":         {"Fiat.Negate", []int{0, 1}, 0, "recv"},
+	"(*Scalar).Equal":          {"Fiat.Equal", []int{0, 1}, -1, "val"},
 	// digit recoding and table selection: tied by the executed correspondence (digits and selects are compared
 	// exhaustively per generated point), primitives here
 	"(*Scalar).signedRadix16":          {"Scalar.radix16Digits", []int{0}, -1, "val"},
-	"(*projLookupTable).SelectInto":    {"Point.projSelect", []int{0, 2}, 1, "recv"},
-	"(*affineLookupTable).SelectInto":  {"Point.affineSelect", []int{0, 2}, 1, "recv"},
+	"crypto/subtle.ConstantTimeByteEq": {"Point.ctByteEq", []int{0, 1}, -1, "val"},
 }
+
+// explicit `panic(msg)` statements: message -> class of the panic in the model (`Res.panic class`).  A function that
+// contains a panic statement is translated with result type `Res T`; it can be tied but not called by translated callers.
+var formulaPanics = map[string]string{
+	"scalar has high bit set illegally":                                      "highbit",
+	"edwards25519: internal error: setShortBytes called with a long string": "internal",
+}
+
+// procedures (methods without results) whose effect is on a parameter other than the receiver: the generated definition
+// returns the new value of that parameter, and the receiver must come out as it went in
+var formulaResultParam = map[string]int{"(*projLookupTable).SelectInto": 1, "(*affineLookupTable).SelectInto": 1}
 
 type fplace struct {
 	key string     // "p1.x", "l3", "g:d2"
@@ -104,6 +153,13 @@ type fval struct {
 	optVar, optOld string
 	optPlace       fplace
 	optNeg         bool // the condition is "is some" rather than "is none"
+	// `len(x)` of a byte-slice value x (lenOf = the term of x); a condition `len(x) == lenN` / `len(x) != lenN` (lenNeq)
+	lenOf, lenTerm string
+	lenN           int64
+	lenNeq         bool
+	nonneg         bool  // a symbolic integer known to be >= 0 as a mathematical integer (lengths)
+	ver            int   // store version at a fallible call (results in pair form)
+	str            string // string constant (kind "str" / "iface")
 }
 
 type ftr struct {
@@ -121,6 +177,11 @@ type ftr struct {
 	rty    string // Lean type of the result (all returns must agree)
 	steps  int
 	used   map[string]bool // translated callees (Lean names incl. aliasing suffix) this definition calls
+	lens   map[string]int64 // path facts: Lean term of a byte-slice value -> its length
+	ver    int              // number of stores so far
+	nro    int
+	mayPanic bool // the function contains a panic statement: result type `Res T`
+	retLen   int64 // length of the returned byte slice when it is a slice over an array (0: unknown)
 }
 
 type fsnap struct {
@@ -128,10 +189,14 @@ type fsnap struct {
 	vals   map[ssa.Value]fval
 	nloc   int
 	guards []string
+	lens   map[string]int64
 }
 
 func (t *ftr) snapshot() fsnap {
-	s := fsnap{store: map[string]fval{}, vals: map[ssa.Value]fval{}, nloc: t.nloc, guards: append([]string(nil), t.guards...)}
+	s := fsnap{store: map[string]fval{}, vals: map[ssa.Value]fval{}, nloc: t.nloc, guards: append([]string(nil), t.guards...), lens: map[string]int64{}}
+	for k, v := range t.lens {
+		s.lens[k] = v
+	}
 	for k, v := range t.store {
 		s.store[k] = v
 	}
@@ -143,6 +208,10 @@ func (t *ftr) snapshot() fsnap {
 
 func (t *ftr) restore(s fsnap) {
 	t.store, t.vals, t.nloc, t.guards = map[string]fval{}, map[ssa.Value]fval{}, s.nloc, append([]string(nil), s.guards...)
+	t.lens = map[string]int64{}
+	for k, v := range s.lens {
+		t.lens[k] = v
+	}
 	for k, v := range s.store {
 		t.store[k] = v
 	}
@@ -155,6 +224,7 @@ type fsig struct {
 	lean   string
 	params []string // Lean parameter types
 	ret    string
+	retLen int64 // known length of the returned byte slice
 }
 
 func (t *ftr) fail(f string, a ...interface{}) {
@@ -178,6 +248,21 @@ func isScalar(ty types.Type) bool {
 func isElement(ty types.Type) bool {
 	n, ok := ty.(*types.Named)
 	return ok && n.Obj().Name() == "Element" && n.Obj().Pkg() != nil && strings.HasSuffix(n.Obj().Pkg().Path(), "/field")
+}
+
+// `[4]uint64` (the fiat field elements in either domain): the Lean structure W4
+func isW4(ty types.Type) bool {
+	a, ok := ty.Underlying().(*types.Array)
+	if !ok || a.Len() != 4 {
+		return false
+	}
+	b, ok := a.Elem().Underlying().(*types.Basic)
+	return ok && b.Kind() == types.Uint64
+}
+
+func isInt8(ty types.Type) bool {
+	b, ok := ty.Underlying().(*types.Basic)
+	return ok && b.Kind() == types.Int8
 }
 
 type fkid struct {
@@ -212,7 +297,7 @@ func realFields(st *types.Struct) []*types.Var {
 
 // components of a composite type (nil for leaves: Element, byte sequences, integers, pointers)
 func (t *ftr) kids(ty types.Type) []fkid {
-	if isElement(ty) || isByteSeq(ty) || isScalar(ty) {
+	if isElement(ty) || isByteSeq(ty) || isW4(ty) {
 		return nil
 	}
 	switch u := ty.Underlying().(type) {
@@ -256,7 +341,7 @@ func (t *ftr) leanTypeOf(ty types.Type) string {
 	if isElement(ty) {
 		return "Fe"
 	}
-	if isScalar(ty) {
+	if isScalar(ty) || isW4(ty) {
 		return "W4"
 	}
 	if b, ok := ty.Underlying().(*types.Basic); ok && b.Kind() == types.Int8 {
@@ -298,7 +383,9 @@ func (t *ftr) zeroTerm(ty types.Type) string {
 		return "Fe.rz"
 	}
 	switch t.leanTypeOf(ty) {
-	case "Nat":
+	case "W4":
+		return "Scalar.rz"
+	case "Nat", "Int":
 		return "0"
 	case "Bytes":
 		if a, ok := ty.Underlying().(*types.Array); ok {
@@ -390,6 +477,10 @@ func (t *ftr) unpack(p fplace, term string) {
 	if strings.HasPrefix(p.key, "g:") {
 		t.fail("store to package-level variable %s", p.key)
 	}
+	if strings.HasPrefix(p.key, "ro") {
+		t.fail("store through a pointer into the backing array of a slice argument (%s)", p.key)
+	}
+	t.ver++
 	t.ensure(p.key)
 	for k := range t.store {
 		if strings.HasPrefix(k, p.key+".") || strings.HasPrefix(k, p.key+"[") {
@@ -431,7 +522,11 @@ func (t *ftr) value(v ssa.Value) fval {
 		}
 		if x.Value.Kind() == constant.Int {
 			n, _ := constant.Int64Val(constant.ToInt(x.Value))
-			return fval{kind: "term", term: constant.ToInt(x.Value).ExactString(), ty: x.Type(), conc: true, n: n}
+			tm := constant.ToInt(x.Value).ExactString()
+			if n < 0 {
+				tm = "(" + tm + ")"
+			}
+			return fval{kind: "term", term: tm, ty: x.Type(), conc: true, n: n}
 		}
 		if x.Value.Kind() == constant.Bool {
 			b := int64(0)
@@ -441,7 +536,7 @@ func (t *ftr) value(v ssa.Value) fval {
 			return fval{kind: "term", term: fmt.Sprint(constant.BoolVal(x.Value)), ty: x.Type(), conc: true, n: b}
 		}
 		if x.Value.Kind() == constant.String {
-			return fval{kind: "term", term: "\"\"", ty: x.Type()}
+			return fval{kind: "str", term: "\"\"", str: constant.StringVal(x.Value), ty: x.Type()}
 		}
 	case *ssa.Global:
 		name := t.c.short(x.RelString(nil))
@@ -495,8 +590,35 @@ func (t *ftr) call(in *ssa.Call) fval {
 	if bi, ok := cc.Value.(*ssa.Builtin); ok && bi.Name() == "len" && len(cc.Args) == 1 {
 		a := t.value(cc.Args[0])
 		if a.kind == "term" {
-			return fval{kind: "term", term: a.term + ".size", ty: in.Type()}
+			if n, ok := t.lens[a.term]; ok {
+				// path-sensitive constant propagation: the length was tested on the way here
+				return fval{kind: "term", term: fmt.Sprint(n), ty: in.Type(), conc: true, n: n}
+			}
+			return fval{kind: "term", term: a.term + ".size", ty: in.Type(), lenOf: a.term, nonneg: true}
 		}
+		if a.kind == "bslice" {
+			if arr, ok := a.place.ty.Underlying().(*types.Array); ok {
+				return fval{kind: "term", term: fmt.Sprint(arr.Len()), ty: in.Type(), conc: true, n: arr.Len()}
+			}
+		}
+		t.fail("len of a %s", a.kind)
+		return fval{kind: "term", term: "default"}
+	}
+	if bi, ok := cc.Value.(*ssa.Builtin); ok && bi.Name() == "copy" && len(cc.Args) == 2 {
+		// copy(buf[:], x) into a local byte array that still holds its zero value: `Scalar.copyInto n x`
+		// (the first min(n, len x) bytes of x, the rest stays zero)
+		dst, src := t.value(cc.Args[0]), t.value(cc.Args[1])
+		arr, isArr := dst.place.ty.Underlying().(*types.Array)
+		if dst.kind != "bslice" || !isArr || !isByteSeq(dst.place.ty) || (src.kind != "term" && src.kind != "bslice") {
+			t.fail("copy other than copy(array[:], byte slice)")
+			return fval{kind: "unusable"}
+		}
+		if cur, ok := t.store[dst.place.key]; !ok || cur.kind != "term" || cur.term != t.zeroTerm(dst.place.ty) {
+			t.fail("copy into an array that is not known to be zero")
+			return fval{kind: "unusable"}
+		}
+		t.unpack(dst.place, t.let(fmt.Sprintf("Scalar.copyInto %d %s", arr.Len(), t.argTerm(src))))
+		return fval{kind: "unusable"} // the number of bytes copied: not modelled
 	}
 	fn, ok := cc.Value.(*ssa.Function)
 	if !ok || cc.IsInvoke() {
@@ -543,6 +665,8 @@ func (t *ftr) call(in *ssa.Call) fval {
 		switch p.ret {
 		case "recv":
 			return args[p.write]
+		case "unit":
+			return fval{kind: "tuple"}
 		default:
 			return fval{kind: "term", term: term, ty: in.Type()}
 		}
@@ -591,7 +715,14 @@ func (t *ftr) call(in *ssa.Call) fval {
 			return fval{kind: "tuple", elems: []fval{args[0], {kind: "term", term: pr + ".2"}}}
 		}
 	}
+	if formulaInline[name] {
+		return t.inline(fn, args)
+	}
 	if sg, ok := t.done[name]; ok {
+		if strings.HasPrefix(sg.ret, "Res ") {
+			t.fail("call of %s, which contains a panic statement", name)
+			return fval{kind: "term", term: "default"}
+		}
 		var as []string
 		for _, a := range args {
 			as = append(as, t.argTerm(a))
@@ -622,20 +753,153 @@ func (t *ftr) call(in *ssa.Call) fval {
 		}
 		t.used[callee] = true
 		r := t.let(callee + " " + strings.Join(as, " "))
+		for i, a := range args {
+			if formulaOutParams[name][i] && (a.kind == "ptr" || a.kind == "bslice") {
+				// a buffer filled by the callee: its definition does not return the buffer's new value, so the
+				// buffer must not be read afterwards (other than through the returned slice, which is the result)
+				t.forget(a.place)
+			}
+		}
+		if strings.HasPrefix(sg.ret, "Option ") && strings.Contains(sg.ret, " × ") && len(args) > 0 && args[0].kind == "ptr" {
+			// fallible setter in pair form: (returned value or none, final value of the receiver)
+			t.unpack(args[0].place, r+".2")
+			return fval{kind: "tuple", elems: []fval{
+				{kind: "optptr", optVar: r, place: args[0].place, ver: t.ver},
+				{kind: "opterr2", optVar: r, ver: t.ver}}}
+		}
 		if _, isPtr := in.Type().Underlying().(*types.Pointer); isPtr && len(args) > 0 && args[0].kind == "ptr" {
 			// method returning its receiver: the result is the receiver's new value
 			t.unpack(args[0].place, r)
 			return args[0]
 		}
 		if tup, isTup := in.Type().(*types.Tuple); isTup && tup.Len() == 0 && fn.Signature.Recv() != nil && len(args) > 0 && args[0].kind == "ptr" {
-			// procedure method: the generated definition returns the receiver's new value
-			t.unpack(args[0].place, r)
+			// procedure method: the generated definition returns the new value of the receiver (or of the parameter
+			// named in `formulaResultParam`)
+			ri := formulaResultParam[name]
+			if ri >= len(args) || args[ri].kind != "ptr" {
+				t.fail("%s: result parameter is not a pointer", name)
+				return fval{kind: "tuple"}
+			}
+			t.unpack(args[ri].place, r)
 			return fval{kind: "tuple"}
+		}
+		if sg.retLen > 0 && isByteSeq(in.Type()) {
+			t.lens[r] = sg.retLen // a slice over a whole byte array
 		}
 		return fval{kind: "term", term: r, ty: in.Type()}
 	}
 	t.fail("call of %s (not a primitive of the table, not a translated function)", name)
 	return fval{kind: "term", term: "default"}
+}
+
+// the value of a place becomes unknown
+func (t *ftr) forget(p fplace) {
+	t.ensure(p.key)
+	t.ver++
+	for k := range t.store {
+		if k == p.key || strings.HasPrefix(k, p.key+".") || strings.HasPrefix(k, p.key+"[") {
+			delete(t.store, k)
+		}
+	}
+}
+
+// execute a callee of `formulaInline` in place: the same store, the callee's parameters bound to the actual arguments.
+// Only executions without symbolic branches and without a reachable panic are supported.
+func (t *ftr) inline(fn *ssa.Function, args []fval) fval {
+	if fn.Blocks == nil || len(args) != len(fn.Params) {
+		t.fail("inlined call of %s: no body", fn.Name())
+		return fval{kind: "term", term: "default"}
+	}
+	for i, p := range fn.Params {
+		t.vals[p] = args[i]
+	}
+	b := fn.Blocks[0]
+	var pred *ssa.BasicBlock
+	for {
+		if t.err != "" {
+			return fval{kind: "term", term: "default"}
+		}
+		n := t.phis(b, pred)
+		if n < 0 {
+			return fval{kind: "term", term: "default"}
+		}
+		var next *ssa.BasicBlock
+		for _, in := range b.Instrs[n:] {
+			t.steps++
+			if t.steps > 200000 {
+				t.fail("too many steps (loop without a constant bound?)")
+				return fval{kind: "term", term: "default"}
+			}
+			switch x := in.(type) {
+			case *ssa.Jump:
+				next = b.Succs[0]
+			case *ssa.If:
+				c := t.value(x.Cond)
+				if c.kind != "term" || !c.conc {
+					t.fail("inlined call of %s: branch on a symbolic condition", fn.Name())
+					return fval{kind: "term", term: "default"}
+				}
+				if c.n == 1 {
+					next = b.Succs[0]
+				} else {
+					next = b.Succs[1]
+				}
+			case *ssa.Panic:
+				t.fail("inlined call of %s: reachable panic", fn.Name())
+				return fval{kind: "term", term: "default"}
+			case *ssa.Return:
+				switch len(x.Results) {
+				case 0:
+					return fval{kind: "tuple"}
+				case 1:
+					return t.value(x.Results[0])
+				}
+				tv := fval{kind: "tuple"}
+				for _, r := range x.Results {
+					tv.elems = append(tv.elems, t.value(r))
+				}
+				return tv
+			default:
+				t.instr(in)
+				if t.err != "" {
+					return fval{kind: "term", term: "default"}
+				}
+			}
+		}
+		if next == nil {
+			t.fail("inlined call of %s: block without a successor", fn.Name())
+			return fval{kind: "term", term: "default"}
+		}
+		pred, b = b, next
+	}
+}
+
+// phis of block b entered from pred: parallel assignment; returns the number of phi instructions (-1: error)
+func (t *ftr) phis(b, pred *ssa.BasicBlock) int {
+	var phiVals []fval
+	var phis []*ssa.Phi
+	for _, in := range b.Instrs {
+		ph, ok := in.(*ssa.Phi)
+		if !ok {
+			break
+		}
+		idx := -1
+		for i, q := range b.Preds {
+			if q == pred {
+				idx = i
+			}
+		}
+		if idx < 0 {
+			t.fail("phi without predecessor")
+			return -1
+		}
+		phis = append(phis, ph)
+		phiVals = append(phiVals, t.value(ph.Edges[idx]))
+	}
+	for i, ph := range phis {
+		t.vals[ph] = phiVals[i]
+	}
+	return len(phis)
 }
 
 var fBinops = map[token.Token]string{token.AND: "&&&", token.OR: "|||", token.XOR: "^^^"}
@@ -669,6 +933,10 @@ func (t *ftr) instr(in ssa.Instruction) (ret *fval) {
 		if b.kind == "term" {
 			// element of a byte-slice parameter
 			if _, ok := b.ty.Underlying().(*types.Slice); ok {
+				if n, known := t.lens[b.term]; known && (ix.n < 0 || ix.n >= n) {
+					t.fail("index %d out of range of a slice of length %d", ix.n, n)
+					return
+				}
 				t.vals[x] = fval{kind: "elem", term: fmt.Sprintf("%s[%d]!", b.term, ix.n), ty: x.Type()}
 				return
 			}
@@ -686,9 +954,67 @@ func (t *ftr) instr(in ssa.Instruction) (ret *fval) {
 			t.fail("IndexAddr into a non-array or out of range")
 			return
 		}
+		if isByteSeq(b.place.ty) {
+			// a byte array is one Lean value (`Bytes`): element reads are `a[i]!`, element writes `a.set! i v`
+			t.vals[x] = fval{kind: "belem", place: b.place, n: ix.n, ty: x.Type()}
+			return
+		}
 		t.vals[x] = fval{kind: "ptr", place: fplace{fmt.Sprintf("%s[%d]", b.place.key, ix.n), arr.Elem()}, ty: x.Type()}
 	case *ssa.Slice:
 		b := t.value(x.X)
+		if b.kind == "term" {
+			// sub-slice x[lo:hi] of a byte-slice VALUE whose length is known on this path: `Bin.slice x lo hi`
+			_, isSl := b.ty.Underlying().(*types.Slice)
+			n, known := t.lens[b.term]
+			if !isSl || !isByteSeq(b.ty) || x.Max != nil {
+				t.fail("Slice of a value that is not a byte slice")
+				return
+			}
+			lo, hi := int64(0), n
+			if x.Low != nil {
+				l := t.value(x.Low)
+				if !l.conc {
+					t.fail("Slice with a symbolic bound")
+					return
+				}
+				lo = l.n
+			}
+			if x.High != nil {
+				h := t.value(x.High)
+				if !h.conc {
+					t.fail("Slice with a symbolic bound")
+					return
+				}
+				hi = h.n
+			} else if !known {
+				if lo == 0 {
+					t.vals[x] = b // x[:] of a slice: the same value
+					return
+				}
+				t.fail("Slice x[lo:] of a slice of unknown length")
+				return
+			}
+			if !known || lo < 0 || lo > hi || hi > n {
+				// (Go allows hi up to cap(x); only bounds within the known length are supported)
+				t.fail("Slice bounds [%d:%d] not within the known length of the slice", lo, hi)
+				return
+			}
+			if lo == 0 && hi == n {
+				t.vals[x] = b
+				return
+			}
+			r := t.let(fmt.Sprintf("Bin.slice %s %d %d", b.term, lo, hi))
+			t.lens[r] = hi - lo
+			t.vals[x] = fval{kind: "term", term: r, ty: x.Type()}
+			return
+		}
+		if b.kind == "ptr" && isByteSeq(b.place.ty) && x.Low == nil && x.High == nil && x.Max == nil {
+			if _, ok := b.place.ty.Underlying().(*types.Array); ok {
+				// a[:] of a byte array: a slice over the array's place
+				t.vals[x] = fval{kind: "bslice", place: b.place, ty: x.Type()}
+				return
+			}
+		}
 		arr, ok := b.place.ty.Underlying().(*types.Array)
 		if b.kind != "ptr" || !ok || x.Low != nil || x.High != nil || x.Max != nil {
 			t.fail("Slice other than a[:] of a local array")
@@ -752,6 +1078,7 @@ func (t *ftr) instr(in ssa.Instruction) (ret *fval) {
 		}
 		if v.kind == "ptr" {
 			t.ensure(a.place.key)
+			t.ver++
 			t.store[a.place.key] = v
 		} else {
 			t.unpack(a.place, t.argTerm(v))
@@ -838,18 +1165,65 @@ func (t *ftr) instr(in ssa.Instruction) (ret *fval) {
 				t.fail("constant folding of %s", x.Op)
 				return
 			}
+			if bits, signed := intBits(x.Type()); !isBool && bits > 0 && bits < 64 {
+				// the result in the operand type (wrapping)
+				m := int64(1) << uint(bits)
+				r = ((r % m) + m) % m
+				if signed && r >= m/2 {
+					r -= m
+				}
+			}
 			tm := fmt.Sprint(r)
+			if r < 0 {
+				tm = "(" + tm + ")"
+			}
 			if isBool {
 				tm = fmt.Sprint(r == 1)
 			}
 			t.vals[x] = fval{kind: "term", term: tm, ty: x.Type(), conc: true, n: r}
 			return
 		}
+		if isInt8(x.X.Type()) && x.Op != token.EQL && x.Op != token.NEQ {
+			// int8 operands are mathematical integers (Lean `Int`); the operations wrap (EdVerif.Impl.I8)
+			switch x.Op {
+			case token.SHR, token.SHL:
+				if !b.conc || b.n < 0 || b.n > 7 {
+					t.fail("int8 shift by a variable or out-of-range count")
+					return
+				}
+				t.vals[x] = fval{kind: "term", term: t.let(fmt.Sprintf("I8.%s %s %d", map[token.Token]string{token.SHR: "sar", token.SHL: "shl"}[x.Op], a.term, b.n)), ty: x.Type()}
+			case token.ADD, token.SUB, token.XOR, token.AND, token.OR:
+				if !isInt8(x.Y.Type()) {
+					t.fail("int8 %s with an operand of another type", x.Op)
+					return
+				}
+				fn := map[token.Token]string{token.ADD: "add", token.SUB: "sub", token.XOR: "xor", token.AND: "and", token.OR: "or"}[x.Op]
+				t.vals[x] = fval{kind: "term", term: t.let(fmt.Sprintf("I8.%s %s %s", fn, a.term, b.term)), ty: x.Type()}
+			default:
+				t.fail("int8 operation %s", x.Op)
+			}
+			return
+		}
 		switch x.Op {
-		case token.EQL:
-			t.vals[x] = fval{kind: "term", term: fmt.Sprintf("(%s == %s)", a.term, b.term), ty: x.Type()}
-		case token.NEQ:
-			t.vals[x] = fval{kind: "term", term: fmt.Sprintf("(%s != %s)", a.term, b.term), ty: x.Type()}
+		case token.EQL, token.NEQ:
+			op := map[token.Token]string{token.EQL: "==", token.NEQ: "!="}[x.Op]
+			r := fval{kind: "term", term: fmt.Sprintf("(%s %s %s)", a.term, op, b.term), ty: x.Type()}
+			if a.lenOf != "" && b.conc {
+				r.lenTerm, r.lenN, r.lenNeq = a.lenOf, b.n, x.Op == token.NEQ
+			} else if b.lenOf != "" && a.conc {
+				r.lenTerm, r.lenN, r.lenNeq = b.lenOf, a.n, x.Op == token.NEQ
+			}
+			t.vals[x] = r
+		case token.LSS, token.GTR, token.LEQ, token.GEQ:
+			// order comparisons on the natural-number representatives: unsigned operands, or signed operands that are
+			// known to be non-negative (lengths, non-negative constants)
+			_, signed := intBits(x.X.Type())
+			okA, okB := a.nonneg || (a.conc && a.n >= 0), b.nonneg || (b.conc && b.n >= 0)
+			if bits, _ := intBits(x.X.Type()); bits == 0 || (signed && !(okA && okB)) {
+				t.fail("comparison %s of signed symbolic integers", x.Op)
+				return
+			}
+			t.vals[x] = fval{kind: "term", term: fmt.Sprintf("(decide (%s %s %s))", a.term, x.Op, b.term), ty: x.Type()}
 		case token.SHL:
 			bits, _ := intBits(x.X.Type())
 			if bits == 0 || !b.conc {
@@ -879,6 +1253,43 @@ func (t *ftr) instr(in ssa.Instruction) (ret *fval) {
 			t.fail("conversion %s -> %s", x.X.Type(), x.Type())
 			return
 		}
+		if a.conc {
+			// a constant: its value in the target type
+			_, ts := intBits(x.Type())
+			n := a.n
+			if tb < 64 {
+				m := int64(1) << uint(tb)
+				n = ((n % m) + m) % m
+				if ts && n >= m/2 {
+					n -= m
+				}
+			} else if !ts && n < 0 {
+				t.fail("conversion of a negative constant to %s", x.Type())
+				return
+			}
+			tm := fmt.Sprint(n)
+			if n < 0 {
+				tm = "(" + tm + ")"
+			}
+			t.vals[x] = fval{kind: "term", term: tm, ty: x.Type(), conc: true, n: n}
+			return
+		}
+		if f8, t8 := isInt8(x.X.Type()), isInt8(x.Type()); f8 || t8 {
+			// int8 is modelled by `Int`, every other integer type by its representative in `Nat`
+			switch {
+			case f8 && t8:
+				t.vals[x] = a
+			case f8 && tb == 8:
+				t.vals[x] = fval{kind: "term", term: "(I8.toU8 " + a.term + ")", ty: x.Type()}
+			case f8:
+				t.vals[x] = fval{kind: "term", term: fmt.Sprintf("(I8.toU %d %s)", tb, a.term), ty: x.Type()}
+			case fb == 8:
+				t.vals[x] = fval{kind: "term", term: "(I8.ofU8 " + a.term + ")", ty: x.Type()}
+			default:
+				t.vals[x] = fval{kind: "term", term: fmt.Sprintf("(I8.ofU8 (U.trunc 8 %s))", a.term), ty: x.Type()}
+			}
+			return
+		}
 		if !a.conc && tb < fb {
 			// integers are modelled by their two's complement representatives: narrowing keeps the low bits
 			t.vals[x] = fval{kind: "term", term: fmt.Sprintf("(U.trunc %d %s)", tb, a.term), ty: x.Type()}
@@ -892,6 +1303,27 @@ func (t *ftr) instr(in ssa.Instruction) (ret *fval) {
 		t.vals[x] = a
 	case *ssa.ChangeType:
 		t.vals[x] = t.value(x.X)
+	case *ssa.MakeInterface:
+		// only the argument of `panic("...")`
+		a := t.value(x.X)
+		if a.kind != "str" {
+			t.fail("interface value other than a string constant")
+			return
+		}
+		t.vals[x] = fval{kind: "iface", str: a.str, ty: x.Type()}
+	case *ssa.SliceToArrayPointer:
+		// (*[n]byte)(x) for a byte-slice value x of known length n: a read-only place holding x
+		a := t.value(x.X)
+		arr, ok := x.Type().Underlying().(*types.Pointer).Elem().Underlying().(*types.Array)
+		n, known := t.lens[a.term]
+		if a.kind != "term" || !ok || !isByteSeq(arr) || !known || n != arr.Len() {
+			t.fail("slice-to-array-pointer conversion of a slice whose length is not known to be the array length")
+			return
+		}
+		pl := fplace{fmt.Sprintf("ro%d", t.nro), arr}
+		t.nro++
+		t.store[pl.key] = fval{kind: "term", term: a.term, ty: arr}
+		t.vals[x] = fval{kind: "ptr", place: pl, ty: x.Type()}
 	case *ssa.Return:
 		switch len(x.Results) {
 		case 0:
@@ -917,8 +1349,9 @@ func (t *ftr) retExpr(ret fval) (string, string) {
 	f := t.f
 	// arguments that do not share storage with the receiver must come out as they went in
 	hasRecv := f.Signature.Recv() != nil
+	ri := formulaResultParam[t.c.short(f.RelString(nil))]
 	for i, p := range f.Params {
-		if hasRecv && (i == 0 || t.alias[i] == t.alias[0]) {
+		if hasRecv && (i == ri || t.alias[i] == t.alias[ri]) {
 			continue
 		}
 		if formulaOutParams[t.c.short(f.RelString(nil))][i] {
@@ -935,13 +1368,23 @@ func (t *ftr) retExpr(ret fval) (string, string) {
 	}
 	switch ret.kind {
 	case "ptr", "bslice":
+		if arr, ok := ret.place.ty.Underlying().(*types.Array); ok && ret.kind == "bslice" {
+			t.retLen = arr.Len()
+		}
 		return t.pack(ret.place), t.leanTypeOf(ret.place.ty)
 	case "term":
+		if n, ok := t.lens[ret.term]; ok && isByteSeq(ret.ty) {
+			t.retLen = n
+		}
 		return ret.term, t.leanTypeOf(ret.ty)
 	case "tuple":
 		if len(ret.elems) == 0 && len(f.Params) > 0 {
-			// procedures (Zero, Select, CondNeg, ...): the new value of the receiver
-			pl := t.vals[f.Params[0]].place
+			// procedures (Zero, Select, CondNeg, ...): the new value of the receiver (or of the result parameter)
+			if ri >= len(f.Params) || t.vals[f.Params[ri]].kind != "ptr" {
+				t.fail("result parameter is not a pointer")
+				return "default", "Unit"
+			}
+			pl := t.vals[f.Params[ri]].place
 			return t.pack(pl), t.leanTypeOf(pl.ty)
 		}
 		if len(ret.elems) == 2 && ret.elems[0].kind == "ptr" && ret.elems[1].kind == "term" && ret.elems[1].term != "nil" {
@@ -958,6 +1401,16 @@ func (t *ftr) retExpr(ret fval) (string, string) {
 				ts = append(ts, t.leanTypeOf(e.place.ty))
 			}
 			return "(" + strings.Join(vs, ", ") + ")", strings.Join(ts, " × ")
+		}
+		// the two results of a fallible setter called on this function's receiver, returned as they are
+		if len(ret.elems) == 2 && ret.elems[0].kind == "optptr" && ret.elems[1].kind == "opterr2" && len(f.Params) > 0 {
+			p, e := ret.elems[0], ret.elems[1]
+			rp, isPtr := f.Params[0].Type().Underlying().(*types.Pointer)
+			if isPtr && p.optVar == e.optVar && p.ver == t.ver && p.place.key == t.vals[f.Params[0]].place.key {
+				// nothing was stored since the call: the value behind the returned pointer is still the callee's
+				ty := t.leanTypeOf(rp.Elem())
+				return "(" + p.optVar + ".1, " + t.pack(p.place) + ")", "Option " + ty + " × " + ty
+			}
 		}
 		// (pointer, error): `(returned value or none, final value of the receiver)`
 		if len(ret.elems) == 2 && len(f.Params) > 0 {
@@ -986,30 +1439,11 @@ func (t *ftr) run(b, pred *ssa.BasicBlock) {
 			return
 		}
 		// phis: parallel assignment from the edge of `pred`
-		var phiVals []fval
-		var phis []*ssa.Phi
-		for _, in := range b.Instrs {
-			ph, ok := in.(*ssa.Phi)
-			if !ok {
-				break
-			}
-			idx := -1
-			for i, q := range b.Preds {
-				if q == pred {
-					idx = i
-				}
-			}
-			if idx < 0 {
-				t.fail("phi without predecessor")
-				return
-			}
-			phis = append(phis, ph)
-			phiVals = append(phiVals, t.value(ph.Edges[idx]))
+		nphi := t.phis(b, pred)
+		if nphi < 0 {
+			return
 		}
-		for i, ph := range phis {
-			t.vals[ph] = phiVals[i]
-		}
-		for _, in := range b.Instrs[len(phis):] {
+		for _, in := range b.Instrs[nphi:] {
 			t.steps++
 			if t.steps > 200000 {
 				t.fail("too many steps (loop without a constant bound?)")
@@ -1052,9 +1486,15 @@ func (t *ftr) run(b, pred *ssa.BasicBlock) {
 					return
 				}
 				t.lets = append(t.lets, fmt.Sprintf("  if %s then (", c.term))
+				if c.lenTerm != "" && !c.lenNeq {
+					t.lens[c.lenTerm] = c.lenN // `len(x) == n` holds in this branch
+				}
 				t.run(b.Succs[0], b)
 				t.lets = append(t.lets, "  ) else (")
 				t.restore(snap)
+				if c.lenTerm != "" && c.lenNeq {
+					t.lens[c.lenTerm] = c.lenN // `len(x) != n` does not hold in this branch
+				}
 				t.run(b.Succs[1], b)
 				t.lets = append(t.lets, "  )")
 				return
@@ -1072,11 +1512,23 @@ func (t *ftr) run(b, pred *ssa.BasicBlock) {
 					}
 				}
 				body, rty := t.retExpr(rv)
+				if t.mayPanic {
+					body, rty = "(Res.ok "+body+")", "Res "+rty
+				}
 				if t.rty != "" && t.rty != rty {
 					t.fail("returns of different shapes (%s / %s)", t.rty, rty)
 				}
 				t.rty = rty
 				t.lets = append(t.lets, "  "+body)
+				return
+			case *ssa.Panic:
+				m := t.value(x.X)
+				cls, ok := formulaPanics[m.str]
+				if m.kind != "iface" || !ok {
+					t.fail("panic with a value that is not in the table of panic messages")
+					return
+				}
+				t.lets = append(t.lets, fmt.Sprintf("  (Res.panic %q)", cls))
 				return
 			default:
 				t.instr(in)
@@ -1112,6 +1564,14 @@ func translateFormulas(repo string) (string, string, []string) {
 	byName := map[string]*ssa.Function{}
 	for _, f := range fns {
 		byName[c.short(f.RelString(nil))] = f
+	}
+	if d := os.Getenv("T5_DUMP"); d != "" {
+		// debugging aid: print the SSA form of the named functions
+		for _, n := range strings.Split(d, ",") {
+			if f := byName[n]; f != nil {
+				f.WriteTo(os.Stderr)
+			}
+		}
 	}
 	var out, ties strings.Builder
 	out.WriteString("-- GENERATED by `go2lean formulas` from the working tree of /repo (symbolic execution of the go/ssa form). DO NOT EDIT.\n")
@@ -1212,7 +1672,7 @@ func aliasPatterns(f *ssa.Function) [][]int {
 }
 
 func translateOne(c *ssaCtx, f *ssa.Function, name string, alias []int, done map[string]*fsig) (string, *fsig, []string, string, []string) {
-	t := &ftr{c: c, f: f, store: map[string]fval{}, vals: map[ssa.Value]fval{}, done: done}
+	t := &ftr{c: c, f: f, store: map[string]fval{}, vals: map[ssa.Value]fval{}, done: done, lens: map[string]int64{}}
 	var params, ptys []string
 	for i, p := range f.Params {
 		pn := fmt.Sprintf("a%d", i)
@@ -1230,6 +1690,13 @@ func translateOne(c *ssaCtx, f *ssa.Function, name string, alias []int, done map
 		params = append(params, fmt.Sprintf("(%s : %s)", pn, ptys[i]))
 	}
 	t.alias = alias
+	for _, b := range f.Blocks {
+		for _, in := range b.Instrs {
+			if _, ok := in.(*ssa.Panic); ok {
+				t.mayPanic = true
+			}
+		}
+	}
 	t.run(f.Blocks[0], nil)
 	if t.err != "" {
 		return "", nil, nil, t.err, nil
@@ -1241,7 +1708,7 @@ func translateOne(c *ssaCtx, f *ssa.Function, name string, alias []int, done map
 	}
 	sort.Strings(used)
 	def := fmt.Sprintf("/-- %s, parameters sharing storage: %v -/\ndef @NAME@ %s : %s :=\n%s\n\n", name, alias, strings.Join(params, " "), rty, strings.Join(t.lets, "\n"))
-	return def, &fsig{lean: leanIdent(name), params: ptys, ret: rty}, t.guards, "", used
+	return def, &fsig{lean: leanIdent(name), params: ptys, ret: rty, retLen: t.retLen}, t.guards, "", used
 }
 
 func quoteAll(xs []string) string {
